@@ -24,6 +24,18 @@ MUTS = [
  ("lib/lha_reader.c","d5 second dot not checked in loop", "&& path_start[0] == '.' && path_start[1] == '.') {\n				return 1;", "&& path_start[0] == '.') {\n				return 1;", "C10", 0),
  ("lib/lha_reader.c","d6 len==3", "if ((p - path_start) == 2\n			 && path_start[0]", "if ((p - path_start) == 3\n			 && path_start[0]", "C10", 1),
  ("lib/lha_reader.c","d7 path_start only advanced when component is not dots", "			path_start = p + 1;\n", "			if (path_start[0] != '.') path_start = p + 1;\n", "C10", 1),
+ # ---- C06 metadata wiring
+ ("lib/lha_reader.c","w1 chown uid/gid swapped", "lha_arch_chown(path, header->unix_uid,\n		                    header->unix_gid)", "lha_arch_chown(path, header->unix_gid,\n		                    header->unix_uid)", "C06", 1),
+ ("lib/lha_reader.c","w2 gid taken from uid at file creation", "unix_gid = reader->curr_file->unix_gid;", "unix_gid = reader->curr_file->unix_uid;", "C06", 1),
+ ("lib/lha_arch_unix.c","w3 actime left zero", "times.actime = (time_t) timestamp;", "times.actime = 0;", "C06", 1),
+ ("lib/lha_reader.c","w4 time set whatever the decode result", "	if (result) {\n		set_timestamps_from_header(filename, reader->curr_file);\n	}", "	set_timestamps_from_header(filename, reader->curr_file);", "C06", 1),
+ ("lib/lha_reader.c","w5 chmod under the uid/gid flag", "	if (LHA_FILE_HAVE_EXTRA(header, LHA_FILE_UNIX_PERMS)) {\n		if (!lha_arch_chmod", "	if (LHA_FILE_HAVE_EXTRA(header, LHA_FILE_UNIX_UID_GID)) {\n		if (!lha_arch_chmod", "C06", 1),
+ ("lib/lha_reader.c","w6 mkdir modes swapped", "		mode = 0700;\n	} else {\n		mode = 0777;", "		mode = 0777;\n	} else {\n		mode = 0700;", "C06", 1),
+ ("lib/lha_arch_unix.c","w7 fchown arguments swapped", "fchown(fileno, unix_uid, unix_gid)", "fchown(fileno, unix_gid, unix_uid)", "C06", 1),
+ ("lib/lha_reader.c","w8 perms at creation under the uid/gid flag", "	if (LHA_FILE_HAVE_EXTRA(reader->curr_file, LHA_FILE_UNIX_PERMS)) {\n		unix_perms", "	if (LHA_FILE_HAVE_EXTRA(reader->curr_file, LHA_FILE_UNIX_UID_GID)) {\n		unix_perms", "C06", 1),
+ ("lib/lha_reader.c","w9 zero timestamp applied", "	if (header->timestamp != 0) {\n		return lha_arch_utime(path, header->timestamp);\n	} else {\n		return 1;\n	}", "	return lha_arch_utime(path, header->timestamp);", "C06", 1),
+ ("lib/lha_arch_unix.c","w10 fchmod before fchown", "	if (unix_uid >= 0) {", "	if (unix_perms >= 0) { fchmod(fileno, unix_perms); }\n	if (unix_uid >= 0) {", "C06", 1),
+ ("lib/lha_reader.c","w11 benign: flags tested through a local copy", "	if (LHA_FILE_HAVE_EXTRA(header, LHA_FILE_UNIX_UID_GID)) {\n		if (!lha_arch_chown", "	unsigned int fl_ = header->extra_flags;\n	if ((fl_ & LHA_FILE_UNIX_UID_GID) != 0) {\n		if (!lha_arch_chown", "C06", 0),
 ]
 only = sys.argv[1:]
 bad = 0
